@@ -708,13 +708,14 @@ func (pm *ProtocolManager) handleMsg(p *peer) error {
 	}()
 
 	for {
-		// listen ReadMsg error
-		if len(errCh) != 0 {
-			err := <-errCh
+		// Wait for the next message or for the end of the connection. Waiting for a message only (msgCache.Pop) left this goroutine, the
+		// peer and its message cache behind for ever once the remote had hung up: a leak per connection
+		var msg *p2p.Msg
+		select {
+		case err := <-errCh:
 			return err
+		case msg = <-msgCache.cache:
 		}
-
-		msg := msgCache.Pop()
 		err := pm.work(msg, p)
 		if err != nil {
 			close(closeCh)
